@@ -7,7 +7,141 @@ package index
 
 func init() {
 	vRegister("ix_exact", H_ix_exact)
+	vRegister("ix_skel", H_ix_skel)
 }
+
+// vIxKeys: concrete key sets with the shapes that matter below the index: id 7 = a 257-bit
+// root over 15 plain 17-bit nodes (Inners bitmap exactly 512 bits, last bit set);
+// id >= 100: vSweep(id-100) (the sweep family of the trie harnesses; 54, 94, 242 have a
+// 64-aligned bitmap length / leaf count / inner-node count).
+func vIxKeys(id int) []string {
+	if id >= 100 {
+		return vSweep(id - 100)
+	}
+	var ks []string
+	for i := 0; i < 15; i++ {
+		b := byte(0x11 + i*0x0f)
+		lo, hi := byte(i%15), byte(15)
+		if i == 14 {
+			lo = 13
+		}
+		ks = append(ks, string([]byte{b, lo << 4}), string([]byte{b, hi<<4 | byte(i)}))
+	}
+	return vUniqSorted(ks)
+}
+
+// L3 for the index: concrete key set, offsets in blocks of `bs` keys (bs = 1: one offset per
+// key, Get; bs > 1: sparse index, RangeGet), symbolic query.
+func H_ix_skel() {
+	keys := vIxKeys(vParam("keys"))
+	bs := vParam("bs")
+	n := len(keys)
+	offs := make([]int64, n)
+	recs := make([]string, n)
+	items := make([]OffsetIndexItem, n)
+	for i := range keys {
+		offs[i] = int64(i/bs)*4096 - 8192
+		recs[i] = string([]byte{'r', byte('0' + i%10), byte('a' + i/10%26), byte('a' + i/260)})
+		items[i] = OffsetIndexItem{Key: keys[i], Offset: offs[i]}
+	}
+	dr := &vRecReader{keys: keys, offs: offs, recs: recs}
+	si, err := NewSlimIndex(items, dr)
+	vAssert(err == nil, "build-ok")
+	if err != nil {
+		vAssume(false)
+	}
+	// every indexed key returns its record
+	okAll := true
+	for i := range keys {
+		var rec string
+		var found bool
+		if bs == 1 {
+			rec, found = si.Get(keys[i])
+		} else {
+			rec, found = si.RangeGet(keys[i])
+		}
+		okAll = vAnd(okAll, found && rec == recs[i])
+		if bs == 1 {
+			// with one offset per key the range lookup is exact as well
+			rec, found = si.RangeGet(keys[i])
+			okAll = vAnd(okAll, found && rec == recs[i])
+		}
+	}
+	vAssert(okAll, "C12.indexed-found")
+	// an arbitrary query is found exactly when it is indexed
+	q := vString("q", vParam("lq"))
+	var rec string
+	var found bool
+	if bs == 1 {
+		rec, found = si.Get(q)
+	} else {
+		rec, found = si.RangeGet(q)
+	}
+	has := false
+	okRec := true
+	for i := range keys {
+		eq := vStrEq(keys[i], q)
+		has = vOr(has, eq)
+		okRec = vAnd(okRec, vImplies(eq, vAnd(found, rec == recs[i])))
+	}
+	vAssert(found == has, "C12.found-iff-indexed")
+	vAssert(okRec, "C12.record")
+	vObserve("found", found)
+	vReach("end")
+}
+
+// vSweep: the first n keys (then sorted, de-duplicated) of a fixed pseudo-random list over
+// a 14-letter alphabet with bytes 0x00, 0x0f, 0x10, 0x7f, 0x80, 0xf0, 0xff and 'a'..'g'.
+// Key lengths 0..5, so keys are often prefixes of other keys; with growing n the shapes
+// pass through 17-bit-only tries, a 257-bit root (> 10 first bytes), nested 257-bit nodes
+// and short-node tables, and the bitmaps take many different alignments.
+func vSweep(n int) []string {
+	alpha := []byte{0x00, 0x0f, 0x10, 'a', 'b', 'c', 'd', 'e', 'f', 'g', 0x7f, 0x80, 0xf0, 0xff}
+	x := uint32(12345)
+	next := func() uint32 {
+		x = x*1664525 + 1013904223
+		return x >> 8
+	}
+	var ks []string
+	for i := 0; i < n; i++ {
+		l := int(next() % 6)
+		if l > 0 && next()%3 == 0 {
+			l = 1 + int(next()%2)
+		}
+		b := make([]byte, l)
+		for j := range b {
+			b[j] = alpha[next()%uint32(len(alpha))]
+		}
+		ks = append(ks, string(b))
+	}
+	return vUniqSorted(ks)
+}
+
+func vUniqSorted(ks []string) []string {
+	// simple merge sort (concrete; insertion sort is too slow in the engine for hundreds of keys)
+	if len(ks) > 1 {
+		mid := len(ks) / 2
+		a := vUniqSorted(append([]string{}, ks[:mid]...))
+		b := vUniqSorted(append([]string{}, ks[mid:]...))
+		ks = ks[:0]
+		i, j := 0, 0
+		for i < len(a) || j < len(b) {
+			var nx string
+			if j >= len(b) || (i < len(a) && a[i] <= b[j]) {
+				nx = a[i]
+				i++
+			} else {
+				nx = b[j]
+				j++
+			}
+			if len(ks) == 0 || ks[len(ks)-1] != nx {
+				ks = append(ks, nx)
+			}
+		}
+	}
+	return ks
+}
+
 
 type vRecReader struct {
 	keys []string
